@@ -11,22 +11,22 @@ COMMON_NOTE = ('Trusted: Lean 4.33 kernel (axioms propext/Classical.choice/Quot.
                'extracted from the Rust, so inputs outside the enumerated/sampled streams rest on the correspondence.')
 
 TEXT = {
- 'C01': ('Lean theorems over the model of every builder write(): from any state in which the recorded configuration equals the device, an accepted request leaves exactly the datasheet-level target on the block and every other register unchanged (all requests, all setter lists, all states); lifted to all histories through the coherence invariant. Tied to the crate by differential runs (preamble-built states x random requests, long histories) and by evaluating the same predicate P.C01 on the crate\'s own register dumps.', '4 C01'),
- 'C02': ('Lean theorem: for every setter and every argument the model encoder equals the datasheet field semantics (mask/code table written independently) for all 256 prior byte values, touches only its field, sets no reserved bit; unsupported sources map to the documented substitute (the partial register-level encoders are shown total at the API). Tie: every setter x every argument x several register backgrounds through the real builders, byte on the simulated chip compared with the datasheet decoding.', '4 C02'),
+ 'C01': ('Lean theorems over the model of every builder write(): from any state in which the recorded configuration equals the device, an accepted request leaves exactly the datasheet-level target on the block and every other register unchanged (all requests, all setter lists, all states); lifted to all histories by Thm/Reach (the invariants hold in every state reachable by any history of calls under any data-fault schedules; config_reachable states C01 for the concrete call over either transport). Tied to the crate by differential runs (preamble-built states x random requests, long histories) and by evaluating the same predicate P.C01 on the crate\'s own register dumps.', '4 C01'),
+ 'C02': ('Lean theorem: for every setter and every argument the model encoder equals the datasheet field semantics (mask/code table written independently) for all 256 prior byte values, touches only its field, sets no reserved bit; unsupported sources map to the documented substitute (the partial register-level encoders are shown total at the API). The model encoders are additionally proved equal to a TRANSLATION of all 130 with_* encoders of src/registers.rs regenerated on every run (tools/gen_encoders.py, Thm/Encoders). Tie: every setter x every argument x several register backgrounds through the real builders, byte on the simulated chip compared with the datasheet decoding.', '4 C02'),
  'C03': ('Lean theorems: Measurement::to_i16 equals the 12-bit sign extension for all 65 536 byte pairs, scaling is multiplication by 1/2/4/8 without i16 overflow, both getters are one 6-byte burst at 0x04, and the range used equals the device range in every coherent state. Tie: boundary + random (thorough: all 65 536) byte pairs per axis x 4 ranges, and histories with rejected / failed requests, self tests and resets.', '4 C03'),
  'C04': ('Lean theorem by induction over an arbitrary list of well-formed frames: iterating the encoded stream (followed by nothing, the empty marker, or any strict prefix of a frame) yields exactly the views of the encoded frames, for all 4096 sample values, all axis subsets, both resolutions. Tie: per-frame exhaustive value sweeps, all sequences over a kind alphabet, long random streams with every truncation point; the Lean encoder is cross-checked against the generator\'s encoder on every case.', '4 C04'),
  'C05': ('Lean theorems for every byte list (no length bound): next() advances the cursor by at least one byte while inside the buffer, yields only in-bounds non-overlapping increasing sub-slices of header-implied length, every accessor index is inside the yielded slice, iteration is over within len+1 calls. Tie: all buffers of length <= 2 over all byte values, all buffers up to length 4/5 over a boundary alphabet, random buffers up to 1024 bytes, each accessor under catch_unwind.', '4 C05'),
- 'C06': ('Lean theorems: the ODR/interrupt invariant on the device is preserved by every configuration call with every outcome (including calls cut short by a bus error, which only remove enables); a request is rejected iff the ideal post-state violates the invariant, with the matching error, and a rejected request emits nothing and changes nothing. Tie: exhaustive 7 ODR x 2^5 enables x 2^3 sources pre-states x request classes.', '4 C06'),
+ 'C06': ('Lean theorems: the ODR/interrupt invariant on the device is preserved by every configuration call with every outcome (including calls cut short by a bus error, which only remove enables) and by self tests and resets at every prefix (Thm/Reach.plan_prefix_inv, reach_step); a request is rejected iff the ideal post-state violates the invariant, with the matching error, and a rejected request emits nothing and changes nothing. Tie: exhaustive 7 ODR x 2^5 enables x 2^3 sources pre-states x request classes.', '4 C06'),
  'C07': ('Lean theorem over every builder script from every coherent state: at each write to a parameter register of gen1/gen2/activity-change/tap/orientation/wake-up/FIFO-watermark, that interrupt is disabled in the device state at that instant (prefix-closed, so also under any fault schedule). Tie: P.C07 evaluated on the crate\'s journals against the simulated chip\'s own enable bits.', '4 C07'),
  'C08': ('Lean theorem over every builder script from every coherent state: no read; own-block registers written at most once, only with the requested value and only if the device differs; outside the block only enable registers, each written first with a strict sub-value and last with its original value. Tie: P.C08 on the crate\'s journals.', '4 C08'),
- 'C09': ('Lean arithmetic theorems (omega / kernel evaluation) for all argument values: watermark min(v,1024) in 11 bits, timeout/period min(v,4095) in 12 bits, sample count clamp-1, 12-bit references clamp + two\'s complement, 8-bit references, durations verbatim; reassembly across the register pair; co-resident bits preserved. Tie: boundary + random (thorough: all 65 536) argument values against several co-resident backgrounds.', '4 C09'),
+ 'C09': ('Lean arithmetic theorems (omega / kernel evaluation) for all argument values: watermark min(v,1024) in 11 bits, timeout/period min(v,4095) in 12 bits, sample count clamp-1, 12-bit references clamp + two\'s complement, 8-bit references, durations verbatim; reassembly across the register pair; co-resident bits preserved; the masks and patterns of the numeric encoders are translated from src/registers.rs on every run (Thm/Encoders). Tie: boundary + random (thorough: all 65 536) argument values against several co-resident backgrounds.', '4 C09'),
  'C10': ('Lean theorems about the self-test action list from every coherent state and for all sensor responses: set-up state at first excitation, order with >= 50 ms (DelayMs arguments) before each data read, verdict iff thresholds exceeded (no i16 overflow), device and shadow restored in both cases. Partial: settling time is the argument passed to DelayMs, not elapsed time.', '4 C10'),
- 'C11': ('Lean theorems: soft_reset is [write 0x7E 0xB6, read 0x0D]; after Ok the recorded configuration is the default whatever the prior state; the driver state is exactly the recorded configuration, so any follow-up program behaves as on a fresh driver. Tie: twin runs (history; reset; program) vs (fresh; program) compared on the crate itself.', '4 C11'),
+ 'C11': ('Lean theorems: soft_reset is [write 0x7E 0xB6, read 0x0D]; after Ok the recorded configuration is the default whatever the prior state; the driver state is exactly the recorded configuration, so any follow-up program behaves as on a fresh driver; from every reachable state (Thm/Programs.reset_reachable, C11_program). Tie: twin runs (history; reset; program) vs (fresh; program) compared on the crate itself.', '4 C11'),
  'C12': ('Lean theorem by induction over an arbitrary list of bus actions, any fault schedule: every raw I2C operation is write(dev,[reg,val]) or write_read(dev,[reg],n) to the build-time address; exact decoding for fault-free runs; burst length per operation. Tie: P.C12 evaluated on the raw embedded-hal calls of every public operation in two builds of the crate (default address 0x14 and the i2c-alt feature 0x15, which the test suite never builds).', '4 C12'),
  'C13': ('Lean theorem by induction over an arbitrary list of bus actions, any fault schedule (pin and data faults): the SPI journal is a sequence of well-formed chip-select windows of the BMA400 protocol, nothing is clocked while chip-select is high, a successful call ends released; constructors begin with the throw-away read, 3-wire writes 0x7C<-0x01. Tie: P.C13 on a single ordered journal of pin edges and transfers from the real crate. Partial: electrical timing is outside any model.', '4 C13'),
- 'C14': ('Lean theorem: for every action list, fault-free, the I2C and the SPI run decode to the same register-level accesses, return the same bytes and leave the same device and recorded configuration (both refine one abstract executor). Tie: the same random programs over both simulated transports on the real crate, compared with each other.', '4 C14'),
+ 'C14': ('Lean theorem: for every action list, fault-free, the I2C and the SPI run decode to the same register-level accesses, return the same bytes and leave the same device and recorded configuration (both refine one abstract executor); lifted to every program of calls by induction (Thm/Programs.C14_program). Tie: the same random programs over both simulated transports on the real crate, compared with each other.', '4 C14'),
  'C15': ('Lean theorem by induction over an arbitrary list of bus actions, both transports, EVERY fault schedule (not only single faults): the call returns exactly the first failed raw operation (IOError for data, ChipSelectPinError for pin, carrying its index), never Ok, and nothing but the chip-select release follows it. Tie: every operation x every fault position on the real crate with tagged errors, catch_unwind per case.', '4 C15'),
- 'C16': ('Lean theorem: "recorded configuration = device" is an invariant of every API call under every schedule of data-operation failures (a failed write is not applied), so every later accepted request satisfies C01/C08 verbatim. Pin-release failures (ChipSelectPinError) are outside the property ("bus error") and excluded, stated. Tie: every operation x every data-fault position, then recovery requests; shadow dump (hook) vs chip.', '4 C16'),
+ 'C16': ('Lean theorem: "recorded configuration = device" is an invariant of every API call under every schedule of data-operation failures (a failed write is not applied), so every later accepted request satisfies C01/C08 verbatim (Thm/Reach.exec_prefix: a faulted run is the abstract run of a prefix; Thm/Programs.C16_recovery: the whole sentence for any history). Pin-release failures (ChipSelectPinError) are outside the property ("bus error") and excluded, stated. Tie: every operation x every data-fault position, then recovery requests; shadow dump (hook) vs chip.', '4 C16'),
  'C17': ('Lean theorems for all register contents: each getter is one burst read at the datasheet address/length and returns the datasheet decoding (flags for all 256 values, FIFO length for all 65 536 pairs and 24-bit counters for all 2^24 by arithmetic, temperature exact as 2t); reserved 2-bit code 3 left free. Tie: exhaustive 256 values per single-byte register in three lane patterns + random register files.', '4 C17'),
  'C18': ('Lean theorems: every constructor succeeds iff the id byte is 0x90 (all 256 values) else ChipIdReadFailed, SPI constructors read twice, 3-wire writes 0x7C<-0x01; the default recorded configuration equals the datasheet reset table, which the translator-generated table from registers.rs is proved equal to. Tie: 256 ids x 3 constructors, first requests per block.', '4 C18'),
  'C19': ('Lean theorems: read_fifo_frames is refused without bus traffic iff bit 0 of recorded 0x29 is set, else one burst of exactly the buffer length at 0x14, for every length; with coherence the guard equals the device bit; flush/clear send 0xB0/0xB1; reset clears the flag. Tie: histories over power on/off, other FIFO setters, faults, self tests, resets followed by reads.', '4 C19'),
